@@ -35,13 +35,31 @@ def r1(P: Project, R: Report) -> None:
     R.need(len(consts) <= 14, f"{len(consts)} distinct integer constants in the cascade; region product too large to enumerate")
     cells = partition(consts)
     comp = [f"int({p}.split('-')[{i}])" for i in range(3)]
+    import re
+
+    unpack_forms = [
+        re.compile(r"^unpack:\(int\((\w+)\) for \1 in (?P<src>.+)\)\[(?P<i>\d)\]$"),
+        re.compile(r"^unpack:\[int\((\w+)\) for \1 in (?P<src>.+)\]\[(?P<i>\d)\]$"),
+        re.compile(r"^unpack:(?:tuple|list)\(int\((\w+)\) for \1 in (?P<src>.+)\)\[(?P<i>\d)\]$"),
+        re.compile(r"^unpack:(?:tuple\(|list\()?map\(int, (?P<src>.+?)\)\)?\[(?P<i>\d)\]$"),
+    ]
+
+    def canon(term, defs):
+        """A name bound by unpacking `int(x) for x in <parts>` / `map(int, <parts>)` denotes int(<parts>[i])."""
+        d = defs.get(term, ("", None))[0]
+        for rx in unpack_forms:
+            m = rx.match(d)
+            if m:
+                return f"int({m.group('src')}[{m.group('i')}])"
+        return None
+
     n = 0
     bad = 0
     nontrivial = set()
     for cy, cm, cd in itertools.product(cells, repeat=3):
         region = {p: "<well-formed version>", f"len({p}.split('-'))": 3, comp[0]: cy, comp[1]: cm, comp[2]: cd}
         # months/days/years are non-negative in the property's domain but the decision must hold for every int
-        res = decide(fi.node, region)
+        res = decide(fi.node, region, canon)
         n += 1
         want = _cmp((cy, cm, cd), ast.Lt(), CUTOFF)
         vals = {(k, v if k != "raise" else str(v)) for k, v, _n in res}
@@ -51,8 +69,9 @@ def r1(P: Project, R: Report) -> None:
         if not ok:
             bad += 1
             line = res[0][2].lineno if res else fi.node.lineno
-            R.ob("R1", f"region year{cy} month{cm} day{cd}", False, f"{fi.module.rel}:{line}",
-                 f"supports_batching yields {sorted(map(str, vals))} but a version in this region is {'older' if want else 'not older'} than 2025-06-18 (expected {want})")
+            if bad <= 3:
+                R.ob("R1", f"region year{cy} month{cm} day{cd}", False,     f"{fi.module.rel}:{line}",
+                     f"supports_batching yields {sorted(map(str, vals))} but a version in this region is {'older' if want else 'not older'} than 2025-06-18 (expected {want})")
         elif len(R.samples) < 12:
             R.sample(f"R1 region year{cy} month{cm} day{cd} -> {want}")
     R.ob("R1", "all regions agree with (y,m,d) < (2025,6,18)", bad == 0, fi.where, f"{bad} of {n} regions disagree")
